@@ -12,7 +12,12 @@
    C06  (sender half) packets on the wire and not yet passed by the peer never number more than
         the packet window, nor hold more than the peer's advertised receive allocation
         (fragment-rounded); (receiver half) the receive-allocation counter never exceeds the
-        configured limit rounded up to a whole fragment. *)
+        configured limit rounded up to a whole fragment.  Between two honest endpoints "no packet
+        is ever discarded for lack of receive memory": that rests on the receiver charging no more
+        than the sender accounts for, so in runs without forged frames the receiver's counter never
+        exceeds the fragment-rounded bytes the sender still has outstanding (the receiver releases
+        a packet when it delivers or skips it, the sender only when the acknowledgement arrives),
+        and is zero again once the connection is quiescent and the sender has nothing outstanding. *)
 EXTENDS TraceIO
 
 VARIABLES
@@ -24,7 +29,7 @@ VARIABLES
     tsMaybe,     \* [ep -> TimeSensitive uids that may have been discarded]
     maybeSum, certainSum,   \* [ep -> bytes]
     outCount, outAlloc,     \* [ep -> packets / fragment-rounded bytes on the wire and not passed]
-    cfg,         \* [pw, alloc: [ep -> receive allocation limit of ep]]
+    cfg,         \* [pw, alloc: [ep -> receive allocation limit of ep], honest: no forged frames in this run]
     nprobe,      \* number of probes judged (evidence)
     bad
 
@@ -46,7 +51,7 @@ SumAlloc(S, s) == IF S = {} THEN 0 ELSE LET u == CHOOSE x \in S : TRUE IN AllocS
 Init ==
     /\ l = 1 /\ sub = <<>> /\ begun = {} /\ open = NoneS /\ unacked = ZeroI /\ tsFresh = NoneS /\ tsMaybe = NoneS
     /\ maybeSum = ZeroI /\ certainSum = ZeroI /\ outCount = ZeroI /\ outAlloc = ZeroI
-    /\ cfg = [pw |-> 4096, alloc |-> [e \in Eps |-> 0]] /\ nprobe = 0 /\ bad = {}
+    /\ cfg = [pw |-> 4096, alloc |-> [e \in Eps |-> 0], honest |-> FALSE] /\ nprobe = 0 /\ bad = {}
 
 Flag(p, why) == IF Cardinality(bad) < 200 THEN {<<p, why, l>>} ELSE {}
 
@@ -54,7 +59,8 @@ Reset ==
     /\ IsEvent("Reset")
     /\ sub' = <<>> /\ begun' = {} /\ open' = NoneS /\ unacked' = ZeroI /\ tsFresh' = NoneS /\ tsMaybe' = NoneS
     /\ maybeSum' = ZeroI /\ certainSum' = ZeroI /\ outCount' = ZeroI /\ outAlloc' = ZeroI
-    /\ cfg' = [pw |-> Cur.cfg.pw, alloc |-> [e \in Eps |-> IF e = "a" THEN Cur.cfg.rx_alloc_a ELSE Cur.cfg.rx_alloc_b]]
+    /\ cfg' = [pw |-> Cur.cfg.pw, alloc |-> [e \in Eps |-> IF e = "a" THEN Cur.cfg.rx_alloc_a ELSE Cur.cfg.rx_alloc_b],
+               honest |-> IF "honest" \in DOMAIN Cur THEN Cur.honest ELSE FALSE]
     /\ UNCHANGED <<nprobe, bad>>
 
 Send ==
@@ -121,6 +127,7 @@ Handle ==
             /\ outAlloc' = [outAlloc EXCEPT ![e] = @ - SumAlloc(U, sub)]
             /\ UNCHANGED bad
        ELSE /\ bad' = bad \cup (IF Cur.kind # "reject" /\ Cur.rx_alloc > Ceil(cfg.alloc[e]) THEN Flag("C06", "receive-allocation-over-limit") ELSE {})
+                         \cup (IF Cur.kind # "reject" /\ cfg.honest /\ Cur.rx_alloc > outAlloc[Other(e)] THEN Flag("C06", "receiver-charges-more-than-the-sender-has-outstanding") ELSE {})
             /\ UNCHANGED <<open, unacked, outCount, outAlloc>>
     /\ UNCHANGED <<sub, begun, tsFresh, tsMaybe, maybeSum, certainSum, cfg, nprobe>>
 
@@ -140,6 +147,8 @@ Quiesced ==
     /\ IsEvent("Quiesced")
     /\ LET e == Cur.ep IN
        bad' = bad \cup (IF Cur.reached /\ open[e] = {} /\ Cur.bufsize # 0 THEN Flag("C20", "nonzero-after-everything-acknowledged") ELSE {})
+                  \cup (IF Cur.reached /\ cfg.honest /\ "rx_alloc" \in DOMAIN Cur /\ open[Other(e)] = {} /\ Cur.rx_alloc # 0
+                        THEN Flag("C06", "receive-allocation-not-returned-at-quiescence") ELSE {})
     /\ UNCHANGED <<sub, begun, open, unacked, tsFresh, tsMaybe, maybeSum, certainSum, outCount, outAlloc, cfg, nprobe>>
 
 Skip ==
